@@ -227,8 +227,11 @@ theorem drain_blocks {s : State} (g : Good s) (hh : s.half = []) :
     | [] => rw [hhold] at hn; cases hn
     | b :: rest =>
       have e : step? s (.unblock b) = some { s with holding := rest } := by
+        have h1 : b ∈ s.holding := by rw [hhold]; exact List.mem_cons_self
+        have h2 : ∀ x ∈ s.half, x.1 ≠ b := by
+          rw [hh]; intro x hx; cases hx
         simp only [step?]
-        rw [if_pos ⟨by rw [hhold]; exact List.mem_cons_self, by rw [hh]; intro x hx; cases hx⟩]
+        rw [if_pos h1, if_pos h2]
         simp [hhold]
       have hlen : rest.length = n := by
         rw [hhold] at hn; simpa using hn
